@@ -336,3 +336,152 @@ def _b_obs(seed, tier):
 
 Bounded('C17', 'observation_sources_order_independent', _b_obs,
         doc='_process_spectrum (strided stores), text and HDF5 readers are outside the verified subset')
+
+
+# ------------------------------------------------------------------ the two file-backed observations: what reaches ArraySpectrum
+from pyvc.engine import AbsObj as _AbsObj, ExcV as _ExcV, _Raise as _RaiseExc
+from pyvc.core import Ref
+
+
+def _ts_params(c):
+    N = c.int('N')
+    if c.mode == 'conc':
+        return dict(self=dict(__obj__='TaurexSpectrum'), filename='out.h5')
+    return dict(self=ObjSpec('TaurexSpectrum'), filename='out.h5',
+                _file=dict(instrument_wngrid=c.array('wn', (N,)), instrument_spectrum=c.array('sp', (N,)), instrument_noise=c.array('no', (N,)),
+                           instrument_wnwidth=c.array('ww', (N,))))
+
+
+def _h_ts_file(ex, st, args, kwargs, node):
+    st.trace.append(('ev', ('h5py.File', args[0], args[1] if len(args) > 1 else kwargs.get('mode', 'r'))))
+    return _AbsObj('H5Group', '', {})
+
+
+def _h_ts_get(ex, st, o, args, kwargs, node):
+    key = args[0]
+    path = (o.ident + '/' + key).lstrip('/')
+    if path in ('Output', 'Output/Spectra'):
+        return _AbsObj('H5Group', path, {})
+    if o.ident == 'Output/Spectra':
+        if not ex.c.fixed['has_instrument'] or key not in st.get(st.env['_file']).items:
+            raise _RaiseExc(st, _ExcV('KeyError', getattr(node, 'lineno', 0)))
+        return _AbsObj('H5Dataset', key, {})
+    raise _RaiseExc(st, _ExcV('KeyError', getattr(node, 'lineno', 0)))
+
+
+def _ts_post(c, v0, v1, r):
+    if c.mode == 'conc':
+        import numpy as np
+        f = c.values['__file__']
+        wn = np.asarray(f['instrument_wngrid'], dtype=float)
+        want = np.vstack((10000 / wn, f['instrument_spectrum'], f['instrument_noise'], 10000 * np.asarray(f['instrument_wnwidth']) / wn ** 2)).T
+        return {'four_columns_row_by_row': np.asarray(r).shape == want.shape and bool(np.allclose(np.asarray(r), want, rtol=1e-12))}
+    f = v0._file
+    N = c.Len(f['instrument_wngrid'])
+    wn, ww = f['instrument_wngrid'], f['instrument_wnwidth']
+    ev = [tuple(e) for e in (c.trace or []) if e[0] in ('h5py.File', 'exit')]
+    return {'opens_the_named_file_for_reading_and_leaves_it': ev == [('h5py.File', v0.filename, 'r'), ('exit', 'H5Group', '')],
+            'shape': c.And(c.Shape(r)[0] == N, c.Shape(r)[1] == 4),
+            'four_columns_row_by_row': c.Forall(0, N, lambda i: c.And(c.Eq(r[i, 0] * wn[i], 10000), c.Eq(r[i, 1], f['instrument_spectrum'][i]),
+                                                                       c.Eq(r[i, 2], f['instrument_noise'][i]),
+                                                                       c.Eq(r[i, 3] * (wn[i] * wn[i]), 10000 * ww[i])))}
+
+
+def _ts_native(c, p):
+    import os
+    import h5py
+    import numpy as np
+    from taurex.data.spectrum.taurex import TaurexSpectrum
+    v = c.values
+    here = os.path.dirname(os.path.dirname(os.path.abspath(__file__)))
+    base = os.path.join(here, '.cache', 'c17')
+    os.makedirs(base, exist_ok=True)
+    path = os.path.join(base, 'obs_%d.h5' % os.getpid())
+    f = dict(instrument_wngrid=np.array(v['wn'], dtype=float), instrument_spectrum=np.array(v['sp'], dtype=float), instrument_noise=np.array(v['no'], dtype=float),
+             instrument_wnwidth=np.array(v['ww'], dtype=float))
+    with h5py.File(path, 'w') as fh:
+        g = fh.create_group('Output').create_group('Spectra')
+        g.create_dataset('native_wngrid', data=np.arange(3.0))
+        if v['has_instrument']:
+            for k, a in f.items():
+                g.create_dataset(k, data=a)
+    try:
+        o = TaurexSpectrum.__new__(TaurexSpectrum)
+        for nm in ('debug', 'info', 'warning', 'error', 'critical'):
+            setattr(o, nm, lambda *a, **k: None)
+        r = o._load_from_hdf5(path)
+    finally:
+        os.remove(path)
+    c.values['__file__'] = f
+    return np.asarray(r, dtype=float), p
+
+
+TSL = Unit('C17', 'taurex.data.spectrum.taurex:TaurexSpectrum._load_from_hdf5', _ts_params, post=_ts_post, raises=lambda c, v: {'KeyError': not (c.fixed if c.mode != 'conc' else c.values)['has_instrument']},
+           pre=lambda c, v: {'wavenumbers_positive': (c.And(c.Len(v._file['instrument_wngrid']) >= 1,
+                                                            c.Forall(0, c.Len(v._file['instrument_wngrid']), lambda i: v._file['instrument_wngrid'][i] > 0))
+                                                      if c.mode != 'conc' else all(x > 0 for x in c.values['wn']))},
+           cases=[{'has_instrument': True}, {'has_instrument': False}], bounds=[dict(N=2)],
+           abstract={'call:File': _h_ts_file, 'H5Group.__getitem__': _h_ts_get,
+                     'H5Dataset.__getitem__': lambda ex, st, o, args, kwargs, node: st.get(st.env['_file']).items[o.ident]},
+           native=_ts_native, gen=lambda rng: (lambda N: dict(N=N, has_instrument=rng.random() < 0.8, wn=sorted(rng.uniform(300, 9000) for _ in range(N)),
+                                                            sp=[rng.uniform(0.009, 0.011) for _ in range(N)], no=[rng.uniform(1e-5, 1e-4) for _ in range(N)],
+                                                            ww=[rng.uniform(1, 50) for _ in range(N)]))(rng.randint(1, 6)),
+           short='TaurexSpectrum._load_from_hdf5',
+           doc='an observation taken from a TauREx output file: row i of what ArraySpectrum receives = (10000 / wavenumber_i, spectrum_i, noise_i, '
+               'wavenumber width_i converted to wavelength at that wavenumber) of the instrument arrays of the file; a file without them is a '
+               'KeyError (h5py abstract; wnwidth_to_wlwidth by contract)')
+
+
+def _os_params(c):
+    if c.mode == 'conc':
+        return dict(self=dict(__obj__='ObservedSpectrum'), filename='obs.dat')
+    return dict(self=ObjSpec('ObservedSpectrum', _filename=None), filename='obs.dat', _table=c.array('tab', (c.int('N'), c.int('C'))))
+
+
+def _h_os_loadtxt(ex, st, args, kwargs, node):
+    st.trace.append(('ev', ('loadtxt', args[0], tuple(sorted(kwargs)))))
+    return st.env['_table']
+
+
+def _h_os_init(ex, st, args, kwargs, node):
+    st.trace.append(('ev', ('ArraySpectrum.__init__', args[1].id if isinstance(args[1], Ref) else args[1])))
+    return None
+
+
+def _os_post(c, v0, v1, r):
+    if c.mode == 'conc':
+        tr = c.trace or []
+        return {'the_table_of_that_file_goes_to_ArraySpectrum_unchanged': [tuple(e) for e in tr] == [('loadtxt', 'obs.dat', ()), ('ArraySpectrum.__init__', 'the-table')]}
+    ev = [tuple(e) for e in (c.trace or []) if e[0] in ('loadtxt', 'ArraySpectrum.__init__')]
+    return {'the_table_of_that_file_goes_to_ArraySpectrum_unchanged': ev == [('loadtxt', v0.filename, ()), ('ArraySpectrum.__init__', c.raw['env']['_table'].id)]}
+
+
+def _os_native(c, p):
+    import numpy as np
+    import taurex.data.spectrum.observed as M
+    trace = []
+    real_load, real_init = M.np.loadtxt, M.ArraySpectrum.__init__
+    table = np.array([[1.0, 2.0, 3.0]])
+
+    def fake_load(fn, **kw):
+        trace.append(('loadtxt', fn, tuple(sorted(kw))))
+        return table
+
+    def fake_init(self, spectrum):
+        trace.append(('ArraySpectrum.__init__', 'the-table' if spectrum is table else 'something else'))
+    M.ArraySpectrum.__init__ = fake_init
+    saved = np.loadtxt
+    np.loadtxt = fake_load
+    try:
+        M.ObservedSpectrum('obs.dat')
+    finally:
+        np.loadtxt = saved
+        M.ArraySpectrum.__init__ = real_init
+    return None, dict(p, __trace__=trace)
+
+
+OSI = Unit('C17', 'taurex.data.spectrum.observed:ObservedSpectrum.__init__', _os_params, post=_os_post, bounds=[],
+           abstract={'call:loadtxt': _h_os_loadtxt, 'call:__init__': _h_os_init}, native=_os_native, gen=lambda rng: dict(N=2, C=3, tab=[[1.0, 2.0, 3.0], [2.0, 2.0, 3.0]]),
+           frame_attrs=[('self', '_filename')], short='ObservedSpectrum.__init__',
+           doc='an observation read from a text file: the table np.loadtxt returns for that file (default options) is handed to ArraySpectrum\'s '
+               'constructor unchanged -- everything else (sorting, splitting, edges) is ArraySpectrum (own units); np.loadtxt abstract')
